@@ -477,6 +477,11 @@ def run(ctx):
     ctx.attempt(_parameter_threading_rule, ctx, "R16.15", scope=lambda f: f.module.name.startswith("EasyFEA.Models.InElastic"), pname="z_e_pg", min_instances=4)
     ctx.attempt(stress_read_state_rule, ctx)
     ctx.attempt(active_stress_guard_rule, ctx)
+    from .. import beamops as _beamops
+    from ..elems import ElemLib as _ElemLib
+
+    # internal forces of a beam (N, M, T results) are read in the axes of the member: the operators they are computed with carry the frame block
+    ctx.attempt(_beamops.operator_frame_rule, ctx, _ElemLib(ctx.repo), "R16.18")
     from ..shared import group_loop_rule as _group_loop_rule
     from . import c14 as _c14
 
